@@ -34,6 +34,7 @@ type Stats struct {
 	SolverNs int64
 	SlowNs   int64 // time in queries slower than 50 ms
 	Slow     int
+	Retried  int // unknown answers decided unsat by a fresh solver process
 	MaxNs    int64
 }
 
@@ -44,12 +45,13 @@ type Solver struct {
 	out   *bufio.Reader
 	level int
 	// defined[id] = level at which the term (or declaration) was introduced
-	defined map[int]int
-	declUF  map[string]int
-	scopes  [][]int    // term ids defined per level
-	scopeUF [][]string // UF names declared per level
-	Stats   Stats
-	Dump    io.Writer // optional transcript
+	defined   map[int]int
+	declUF    map[string]int
+	scopes    [][]int    // term ids defined per level
+	scopeUF   [][]string // UF names declared per level
+	Stats     Stats
+	Dump      io.Writer  // optional transcript
+	lines     [][]string // declarations, definitions and assertions sent per level (for retryFresh)
 	TimeoutMs int
 }
 
@@ -81,7 +83,7 @@ func New(kind string, timeoutMs int) (*Solver, error) {
 		return nil, err
 	}
 	s := &Solver{Name: kind, cmd: cmd, in: in, out: bufio.NewReaderSize(out, 1<<16),
-		defined: map[int]int{}, declUF: map[string]int{}, scopes: [][]int{nil}, scopeUF: [][]string{nil}, TimeoutMs: timeoutMs}
+		defined: map[int]int{}, declUF: map[string]int{}, scopes: [][]int{nil}, scopeUF: [][]string{nil}, lines: [][]string{nil}, TimeoutMs: timeoutMs}
 	if kind == "cvc5" {
 		s.send("(set-logic ALL)")
 	}
@@ -104,6 +106,9 @@ func (s *Solver) send(line string) {
 	}
 	io.WriteString(s.in, line)
 	io.WriteString(s.in, "\n")
+	if strings.HasPrefix(line, "(declare-") || strings.HasPrefix(line, "(define-") || strings.HasPrefix(line, "(assert ") {
+		s.lines[s.level] = append(s.lines[s.level], line)
+	}
 }
 
 func (s *Solver) Level() int { return s.level }
@@ -111,6 +116,7 @@ func (s *Solver) Level() int { return s.level }
 func (s *Solver) Push() {
 	s.send("(push 1)")
 	s.level++
+	s.lines = append(s.lines, nil)
 	s.scopes = append(s.scopes, nil)
 	s.scopeUF = append(s.scopeUF, nil)
 }
@@ -128,6 +134,7 @@ func (s *Solver) Pop() {
 	}
 	s.scopes = s.scopes[:s.level]
 	s.scopeUF = s.scopeUF[:s.level]
+	s.lines = s.lines[:s.level]
 	s.level--
 }
 
@@ -265,6 +272,17 @@ func (s *Solver) Check() Result {
 		}
 		break
 	}
+	if res == Unknown {
+		// The incremental process can be stuck in a bad state for a query that a
+		// fresh process decides at once: re-decide the same stack from scratch. Only
+		// an unsat answer is taken over (a sat answer would need the model of the
+		// other process): unknown -> unsat is sound because the transcript holds
+		// exactly the assertions of the live levels.
+		if s.retryFresh() == Unsat {
+			res = Unsat
+			s.Stats.Retried++
+		}
+	}
 	dt := time.Since(t0).Nanoseconds()
 	s.Stats.SolverNs += dt
 	if dt > 50e6 {
@@ -282,6 +300,58 @@ func (s *Solver) Check() Result {
 		s.Stats.Unsat++
 	default:
 		s.Stats.Unknown++
+	}
+	return res
+}
+
+// retryFresh re-decides the current assertion stack in a new solver process.
+func (s *Solver) retryFresh() Result {
+	name, args := command(s.Name, s.TimeoutMs)
+	cmd := exec.Command(name, args...)
+	in, err := cmd.StdinPipe()
+	if err != nil {
+		return Unknown
+	}
+	out, err := cmd.StdoutPipe()
+	if err != nil {
+		return Unknown
+	}
+	if err := cmd.Start(); err != nil {
+		return Unknown
+	}
+	defer func() {
+		cmd.Process.Kill()
+		cmd.Wait()
+	}()
+	w := bufio.NewWriterSize(in, 1<<16)
+	if s.Name == "cvc5" {
+		w.WriteString("(set-logic ALL)\n")
+	}
+	for _, lvl := range s.lines[:s.level+1] {
+		for _, l := range lvl {
+			w.WriteString(l)
+			w.WriteByte('\n')
+		}
+	}
+	w.WriteString("(check-sat)\n")
+	if w.Flush() != nil {
+		return Unknown
+	}
+	in.Close()
+	res := Unknown
+	sc := bufio.NewScanner(out)
+	sc.Buffer(make([]byte, 1<<16), 1<<24)
+	for sc.Scan() {
+		line := strings.TrimSpace(sc.Text())
+		if strings.HasPrefix(line, "(error") {
+			return Unknown
+		}
+		switch line {
+		case "sat":
+			res = Sat
+		case "unsat":
+			res = Unsat
+		}
 	}
 	return res
 }
